@@ -545,6 +545,19 @@ def _list_tokens(expr, env, new_p: str) -> Optional[List[str]]:
     if isinstance(expr, ast.BinOp) and isinstance(expr.op, ast.Add):
         a, b = _list_tokens(expr.left, env, new_p), _list_tokens(expr.right, env, new_p)
         return None if a is None or b is None else a + b
+    if isinstance(expr, ast.ListComp) and len(expr.generators) == 1 and isinstance(expr.elt, ast.Name) and \
+            isinstance(expr.generators[0].target, ast.Name) and expr.generators[0].target.id == expr.elt.id:
+        g = expr.generators[0]
+        toks = _list_tokens(g.iter, env, new_p)
+        if toks is None:
+            return None
+        for c in g.ifs:
+            if isinstance(c, ast.Compare) and len(c.ops) == 1 and isinstance(c.ops[0], ast.NotEq) and \
+                    {ap(c.left), ap(c.comparators[0])} == {expr.elt.id, new_p}:
+                toks = ["OLD-*" if t == "OLD*" else t for t in toks if t != "NEW"]
+            else:
+                return None
+        return toks
     if isinstance(expr, ast.Call):
         nm = call_attr(expr)
         if nm == "popall" and isinstance(expr.func, ast.Attribute) and ap(expr.func.value) in ("self", "super()"):
@@ -562,79 +575,109 @@ def r2(ctx, model: Model):
     params = [a.arg for a in f.node.args.args]
     ctx.require(len(params) == 3, "CapsMultiDict.add signature changed (self, key, value)")
     key_p, new_p = params[1], params[2]
-    env: Dict[str, List[str]] = {}
-    emitted: List[str] = []
-    popped_before_emit = True
-    popped = False
-
     def is_super_add(c):
         return isinstance(c, ast.Call) and call_attr(c) == "add" and isinstance(c.func, ast.Attribute) and \
             ap(c.func.value) in ("super()",) and len(c.args) == 2
 
-    def emit_of(c, loopvar=None, looptoks=None):
-        a = c.args[1]
-        if isinstance(a, ast.Name) and a.id == new_p:
-            return ["NEW"]
-        if loopvar and isinstance(a, ast.Name) and a.id == loopvar:
-            return list(looptoks)
-        raise AnalysisError(f"CapsMultiDict.add: unsupported re-insert `{norm(c)}`")
-    for st in f.node.body:
-        if isinstance(st, ast.Expr) and isinstance(st.value, ast.Constant):
-            continue
-        if isinstance(st, ast.Assign) and len(st.targets) == 1 and isinstance(st.targets[0], ast.Name):
-            toks = _list_tokens(st.value, env, new_p)
-            if toks is None:
-                raise AnalysisError(f"CapsMultiDict.add: unsupported statement `{norm(st)}`")
-            if "OLD*" in toks:
-                popped = True
-            env[st.targets[0].id] = toks
-        elif isinstance(st, ast.Expr) and isinstance(st.value, ast.Call):
-            c = st.value
-            if is_super_add(c):
-                if not popped:
-                    popped_before_emit = False
-                emitted.extend(emit_of(c))
-            elif isinstance(c.func, ast.Attribute) and isinstance(c.func.value, ast.Name) and c.func.value.id in env:
-                lst = env[c.func.value.id]
-                if c.func.attr == "append" and len(c.args) == 1 and ap(c.args[0]) == new_p:
-                    lst.append("NEW")
-                elif c.func.attr == "insert" and len(c.args) == 2 and isinstance(c.args[0], ast.Constant) and \
-                        c.args[0].value == 0 and ap(c.args[1]) == new_p:
-                    lst.insert(0, "NEW")
-                elif c.func.attr == "reverse" and not c.args:
-                    lst.reverse()
-                else:
-                    raise AnalysisError(f"CapsMultiDict.add: unsupported list operation `{norm(st)}`")
-            elif call_attr(c) == "popall":
-                popped = True  # result discarded: old values are dropped, reported below
-            elif (ap(c.func) or "").split(".")[0] in ("LOG", "logging", "logger"):
-                continue
-            else:
-                raise AnalysisError(f"CapsMultiDict.add: unsupported statement `{norm(st)}`")
-        elif isinstance(st, ast.For) and isinstance(st.target, ast.Name) and len(st.body) == 1 and not st.orelse and \
-                isinstance(st.body[0], ast.Expr) and is_super_add(st.body[0].value):
-            it = st.iter
-            rev = False
-            if isinstance(it, ast.Call) and ap(it.func) == "reversed" and len(it.args) == 1:
-                it, rev = it.args[0], True
-            toks = _list_tokens(it, env, new_p)
-            if toks is None:
-                raise AnalysisError(f"CapsMultiDict.add: unsupported loop source `{norm(st.iter)}`")
-            if "OLD*" in toks:
-                popped = True
-            if rev:
-                toks = list(reversed(toks))
+    def run_case(case: str):
+        """Abstractly execute add() when the value being added is `case` (absent / present) among the stored ones."""
+        st_ = {"env": {}, "emitted": [], "popped": False, "ok_pop": True}
+
+        def emit_of(c, loopvar=None, looptoks=None):
+            a = c.args[1]
+            if isinstance(a, ast.Name) and a.id == new_p:
+                return ["NEW"]
+            if loopvar and isinstance(a, ast.Name) and a.id == loopvar:
+                return list(looptoks)
+            raise AnalysisError(f"CapsMultiDict.add: unsupported re-insert `{norm(c)}`")
+
+        def test(e) -> bool:
+            if isinstance(e, ast.UnaryOp) and isinstance(e.op, ast.Not):
+                return not test(e.operand)
+            if isinstance(e, ast.Compare) and len(e.ops) == 1 and isinstance(e.ops[0], (ast.In, ast.NotIn)) and \
+                    ap(e.left) == new_p:
+                toks = _list_tokens(e.comparators[0], st_["env"], new_p)
+                if toks is None:
+                    raise AnalysisError(f"CapsMultiDict.add: unsupported membership test `{norm(e)}`")
                 if "OLD*" in toks:
-                    toks = ["OLD-REVERSED*" if t == "OLD*" else t for t in toks]
-            if not popped:
-                popped_before_emit = False
-            emitted.extend(emit_of(st.body[0].value, st.target.id, toks))
-        else:
-            raise AnalysisError(f"CapsMultiDict.add: unsupported statement `{norm(st)}`")
-    ctx.ob("C16.R2", "CapsMultiDict.add re-inserts exactly [new value, *previous values]",
-           emitted == ["NEW", "OLD*"] and popped_before_emit, f.where,
-           f"insertion order is {emitted}{'' if popped_before_emit else ' with the previous values still in front'}: "
-           f"lookup by name returns the first value, which must be the newest grant")
+                    st_["popped"] = True
+                inside = "NEW" in toks or (case == "present" and any(t.startswith("OLD") and t != "OLD-*" for t in toks))
+                return inside if isinstance(e.ops[0], ast.In) else not inside
+            raise AnalysisError(f"CapsMultiDict.add: unsupported condition `{norm(e)}`")
+
+        def block(stmts):
+            env = st_["env"]
+            for st in stmts:
+                if isinstance(st, ast.Expr) and isinstance(st.value, ast.Constant):
+                    continue
+                if isinstance(st, ast.Pass):
+                    continue
+                if isinstance(st, ast.If):
+                    block(st.body if test(st.test) else st.orelse)
+                elif isinstance(st, ast.Assign) and len(st.targets) == 1 and isinstance(st.targets[0], ast.Name):
+                    toks = _list_tokens(st.value, env, new_p)
+                    if toks is None:
+                        raise AnalysisError(f"CapsMultiDict.add: unsupported statement `{norm(st)}`")
+                    if any(t.startswith("OLD") for t in toks):
+                        st_["popped"] = True
+                    env[st.targets[0].id] = toks
+                elif isinstance(st, ast.Expr) and isinstance(st.value, ast.Call):
+                    c = st.value
+                    if is_super_add(c):
+                        if not st_["popped"]:
+                            st_["ok_pop"] = False
+                        st_["emitted"].extend(emit_of(c))
+                    elif isinstance(c.func, ast.Attribute) and isinstance(c.func.value, ast.Name) and c.func.value.id in env:
+                        lst = env[c.func.value.id]
+                        if c.func.attr == "append" and len(c.args) == 1 and ap(c.args[0]) == new_p:
+                            lst.append("NEW")
+                        elif c.func.attr == "insert" and len(c.args) == 2 and isinstance(c.args[0], ast.Constant) and \
+                                c.args[0].value == 0 and ap(c.args[1]) == new_p:
+                            lst.insert(0, "NEW")
+                        elif c.func.attr == "remove" and len(c.args) == 1 and ap(c.args[0]) == new_p:
+                            # removes the first equal entry; duplicates may remain
+                            if "NEW" in lst:
+                                lst.remove("NEW")
+                            elif case == "absent":
+                                raise AnalysisError("CapsMultiDict.add: remove() of a value that may be absent")
+                        elif c.func.attr == "reverse" and not c.args:
+                            lst.reverse()
+                            lst[:] = ["OLD-REVERSED*" if t.startswith("OLD") else t for t in lst]
+                        else:
+                            raise AnalysisError(f"CapsMultiDict.add: unsupported list operation `{norm(st)}`")
+                    elif call_attr(c) == "popall":
+                        st_["popped"] = True  # result discarded: old values are dropped, reported below
+                    elif (ap(c.func) or "").split(".")[0] in ("LOG", "logging", "logger"):
+                        continue
+                    else:
+                        raise AnalysisError(f"CapsMultiDict.add: unsupported statement `{norm(st)}`")
+                elif isinstance(st, ast.For) and isinstance(st.target, ast.Name) and len(st.body) == 1 and not st.orelse and \
+                        isinstance(st.body[0], ast.Expr) and is_super_add(st.body[0].value):
+                    it = st.iter
+                    rev = False
+                    if isinstance(it, ast.Call) and ap(it.func) == "reversed" and len(it.args) == 1:
+                        it, rev = it.args[0], True
+                    toks = _list_tokens(it, env, new_p)
+                    if toks is None:
+                        raise AnalysisError(f"CapsMultiDict.add: unsupported loop source `{norm(st.iter)}`")
+                    if any(t.startswith("OLD") for t in toks):
+                        st_["popped"] = True
+                    if rev:
+                        toks = ["OLD-REVERSED*" if t.startswith("OLD") else t for t in reversed(toks)]
+                    if not st_["popped"]:
+                        st_["ok_pop"] = False
+                    st_["emitted"].extend(emit_of(st.body[0].value, st.target.id, toks))
+                else:
+                    raise AnalysisError(f"CapsMultiDict.add: unsupported statement `{norm(st)}`")
+        block(f.node.body)
+        return st_["emitted"], st_["ok_pop"]
+    results = {case: run_case(case) for case in ("absent", "present")}
+    bad = {case: (em, okp) for case, (em, okp) in results.items()
+           if not (em in (["NEW", "OLD*"], ["NEW", "OLD-*"]) and okp)}
+    ctx.ob("C16.R2", "CapsMultiDict.add re-inserts exactly [new value, *previous values]", not bad, f.where,
+           "; ".join(f"when the value is {case} among the stored ones the insertion order is {em}"
+                     f"{'' if okp else ' with the previous values still in front'}" for case, (em, okp) in bad.items()) +
+           ": lookup by name returns the first value, which must be the newest grant")
     keys_ok = all(ap(c.args[0]) == key_p for c in calls(f.node) if call_attr(c) in ("add", "popall") and c.args)
     ctx.ob("C16.R2", "CapsMultiDict.add pops and re-inserts under the key being added", keys_ok, f.where)
     # the caps table is a CapsMultiDict
@@ -1330,6 +1373,275 @@ def r6(ctx, model: Model):
     ctx.floor("C16.R6", "proxy-minted cap URLs", n, 2)
 
 
+# --------------------------------------------------------------------------- R7 / R8
+
+class _Repl(ast.NodeTransformer):
+    def __init__(self, pred):
+        self.pred = pred
+
+    def generic_visit(self, node):
+        if self.pred(node):
+            return ast.Name(id="OBJ", ctx=ast.Load())
+        return super().generic_visit(node)
+
+    def visit(self, node):
+        if self.pred(node):
+            return ast.Name(id="OBJ", ctx=ast.Load())
+        return super().visit(node)
+
+
+def _clone_ast(n):
+    if isinstance(n, ast.AST):
+        new = n.__class__()
+        for f_, v in ast.iter_fields(n):
+            setattr(new, f_, _clone_ast(v))
+        return new
+    if isinstance(n, list):
+        return [_clone_ast(x) for x in n]
+    return n
+
+
+class _FoldGetattr(ast.NodeTransformer):
+    def visit_Call(self, node):
+        self.generic_visit(node)
+        if isinstance(node.func, ast.Name) and node.func.id == "getattr" and len(node.args) == 2 and \
+                isinstance(node.args[1], ast.Constant) and isinstance(node.args[1].value, str):
+            return ast.Attribute(value=node.args[0], attr=node.args[1].value, ctx=ast.Load())
+        return node
+
+
+class _SubstNames(ast.NodeTransformer):
+    def __init__(self, mapping):
+        self.mapping = mapping
+
+    def visit_Name(self, node):
+        if node.id in self.mapping:
+            return _clone_ast(self.mapping[node.id])
+        return node
+
+
+def _helper_of(repo, fi, call):
+    """(helper FuncInfo, {param: argument expr}) for a call of a same-module top-level function."""
+    if not (isinstance(call, ast.Call) and isinstance(call.func, ast.Name)):
+        return None
+    cands = [g for g in repo.funcs.get(call.func.id, []) if g.module is fi.module and g.cls is None and g.parent_fn is None]
+    if len(cands) != 1:
+        return None
+    h = cands[0]
+    params = [a.arg for a in h.node.args.args]
+    if len(call.args) > len(params) or h.node.args.vararg or h.node.args.kwarg:
+        return None
+    mapping = dict(zip(params, call.args))
+    for k in call.keywords:
+        if k.arg in params:
+            mapping[k.arg] = k.value
+    return h, mapping
+
+
+def _through(mapping, e):
+    return _FoldGetattr().visit(_SubstNames(mapping).visit(_clone_ast(e)))
+
+
+def _selections(fn_node):
+    """`X = v` inside `for v in ...` / `X = next((v for v in ... if ...), d)`: (assign, candidate var, conditions)."""
+    out = []
+    for n in walk(fn_node):
+        if isinstance(n, ast.Assign) and len(n.targets) == 1 and isinstance(n.targets[0], ast.Name):
+            if isinstance(n.value, ast.Name):
+                loops = [a for a in ancestors(n) if isinstance(a, ast.For) and isinstance(a.target, ast.Name) and
+                         a.target.id == n.value.id]
+                if loops:
+                    conds = [(e, pol) for e, pol in facts(n, fn_node) if any(x is loops[0] for x in ancestors(e))]
+                    out.append((n, n.value.id, conds))
+            elif isinstance(n.value, ast.Call) and ap(n.value.func) == "next" and n.value.args and \
+                    isinstance(n.value.args[0], ast.GeneratorExp) and isinstance(n.value.args[0].elt, ast.Name):
+                g = n.value.args[0]
+                conds = [a for gen in g.generators for c in gen.ifs for a in atoms(c, True)]
+                out.append((n, g.elt.id, conds))
+    return out
+
+
+def r7(ctx, model: Optional[Model] = None):   # usable as a dependency clause (one required parameter)
+    repo = ctx.repo
+    ctx.rule("C16.R7", "CapData crosses the process boundary as (session id, region address): deserialize re-attaches the "
+                       "session / region selected by exactly the key serialize wrote and by nothing else")
+    sf = repo.fn("CapData.serialize")
+    df = repo.fn("CapData.deserialize")
+    rets = [r for r in returns_of(sf.node) if isinstance(r.value, ast.Call)]
+    ctx.require(len(rets) == 1, "CapData.serialize is no longer one constructor call")
+    written: Dict[str, str] = {}
+    for k in rets[0].value.keywords:
+        v = k.value
+        hp = _helper_of(repo, sf, v)
+        if hp is not None:
+            h, mapping = hp
+            vals = [r.value for r in returns_of(h.node) if r.value is not None and
+                    not (isinstance(r.value, ast.Constant) and r.value.value is None)]
+            if len(vals) != 1:
+                continue
+            v = _through(mapping, vals[0])
+        v = v.body if isinstance(v, ast.IfExp) else v
+        objs = [c for c in ast.walk(v) if isinstance(c, ast.Call) and isinstance(c.func, ast.Attribute) and
+                isinstance(c.func.value, ast.Name) and c.func.value.id == "self" and not c.args]
+        if len({norm(o) for o in objs}) != 1:
+            continue
+        text = norm(objs[0])
+        written[k.arg] = norm(_Repl(lambda n, t=text: isinstance(n, ast.Call) and norm(n) == t).visit(_clone_ast(v)))
+    ctx.floor("C16.R7", "object-derived keys written by CapData.serialize", len(written), 2)
+    dparams = [a.arg for a in df.node.args.args]
+    ctx.require(len(dparams) >= 2, "CapData.deserialize signature changed")
+    ser_p = dparams[1]
+    # locals that merely name a field of the serialized tuple
+    field_alias: Dict[str, str] = {}
+    for st in stores(df.node):
+        if st.kind == "assign" and isinstance(st.target, ast.Name) and st.value is not None and \
+                (ap(st.value) or "").startswith(ser_p + "."):
+            field_alias[st.path] = ap(st.value)
+    selections = []   # (where node, target label, candidate var, [(cond expr, pol)])
+    for n, v, conds in _selections(df.node):
+        selections.append((n, n.targets[0].id, v, conds))
+    for c in calls(df.node):
+        hp = _helper_of(repo, df, c)
+        if hp is None:
+            continue
+        h, mapping = hp
+        st = enclosing_stmt(c)
+        label = st.targets[0].id if isinstance(st, ast.Assign) and len(st.targets) == 1 and isinstance(st.targets[0], ast.Name) \
+            else h.name
+        for n, v, conds in _selections(h.node):
+            mp = {k_: x for k_, x in mapping.items() if k_ != v}
+            selections.append((c, label, v, [(_through(mp, e), pol) for e, pol in conds]))
+    ctx.floor("C16.R7", "object selections in CapData.deserialize", len(selections), 2)
+    for where, tgt, v, conds in selections:
+        about = [(e, pol) for e, pol in conds if any(isinstance(x, ast.Name) and x.id == v for x in ast.walk(e))]
+        key_ok, extra = False, []
+        for e, pol in about:
+            good = False
+            if pol and isinstance(e, ast.Compare) and len(e.ops) == 1 and isinstance(e.ops[0], ast.Eq):
+                for a, b in ((e.left, e.comparators[0]), (e.comparators[0], e.left)):
+                    fld = ap(a) or ""
+                    fld = field_alias.get(fld, fld)
+                    if fld.startswith(ser_p + ".") and fld.split(".", 1)[1] in written:
+                        mine = norm(_Repl(lambda x, vv=v: isinstance(x, ast.Name) and x.id == vv).visit(_clone_ast(b)))
+                        if mine == written[fld.split(".", 1)[1]]:
+                            good = True
+            if good:
+                key_ok = True
+            else:
+                extra.append(f"{'' if pol else 'not '}{norm(e)}")
+        ctx.ob("C16.R7", f"CapData.deserialize: `{tgt}` is selected by the key serialize wrote", key_ok, ctx.w(df, where),
+               "the object is not matched against the serialized session id / region address the way serialize computed it")
+        ctx.ob("C16.R7", f"CapData.deserialize: `{tgt}` is selected by that key only", not extra, ctx.w(df, where),
+               f"additional conditions {extra} on the candidate: a flow whose region/session fails them comes back "
+               f"without its region/session although serialize recorded it (seed responses are then not rewritten)")
+
+
+def _known_nonempty(fi, node, v) -> bool:
+    """v is a non-empty literal / built from one, or a dominating condition says it is truthy."""
+    if isinstance(v, ast.Constant):
+        return isinstance(v.value, str) and bool(v.value)
+    if isinstance(v, ast.JoinedStr):
+        return any(isinstance(x, ast.Constant) and x.value for x in v.values)
+    if isinstance(v, ast.BinOp) and isinstance(v.op, ast.Add):
+        return _known_nonempty(fi, node, v.left) or _known_nonempty(fi, node, v.right)
+    if isinstance(v, ast.Call) and call_attr(v) in ("urlunsplit", "urlunparse", "register_wrapper_cap", "register_proxy_cap"):
+        return True
+    text = norm(v)
+    for e, pol in facts(node, fi.node):
+        if pol and norm(e) == text:
+            return True
+        # `d.get(k)` truthy  =>  `d[k]` truthy
+        if pol and isinstance(v, ast.Subscript) and isinstance(e, ast.Call) and isinstance(e.func, ast.Attribute) and \
+                e.func.attr == "get" and e.args and norm(e.func.value) == norm(v.value) and norm(e.args[0]) == norm(v.slice) and \
+                (len(e.args) == 1 or (isinstance(e.args[1], ast.Constant) and not e.args[1].value)):
+            return True
+        if pol and isinstance(e, ast.Call) and isinstance(e.func, ast.Attribute) and e.func.attr == "startswith" and \
+                norm(e.func.value) == text and e.args and isinstance(e.args[0], ast.Constant) and e.args[0].value:
+            return True
+        if isinstance(e, ast.Compare) and len(e.ops) == 1 and norm(e.left) == text and \
+                isinstance(e.comparators[0], ast.Constant) and e.comparators[0].value == "" and \
+                ((isinstance(e.ops[0], ast.NotEq) and pol) or (isinstance(e.ops[0], ast.Eq) and not pol)):
+            return True
+    if isinstance(v, ast.Name):
+        vals = [st.value for st in stores(fi.node) if st.path == v.id and st.kind == "assign" and st.value is not None]
+        if vals and all(_known_nonempty(fi, st_node, x) for x, st_node in zip(vals, [node] * len(vals))
+                        if not isinstance(x, ast.Name)) and not any(isinstance(x, ast.Name) for x in vals):
+            return True
+    return False
+
+
+def r8(ctx, model: Model):
+    repo = ctx.repo
+    ctx.rule("C16.R8", "resolution is by url.startswith(cap_url): a URL is stored in a cap table (session.global_caps, "
+                       "region.caps) only when it is known to be non-empty, else every request URL resolves to that cap")
+    # the two tables are resolved by prefix
+    sr = repo.fn("Session.resolve_cap")
+    by_prefix = any(call_attr(c) == "startswith" for c in calls(sr.node)) and \
+        any((ap(l.iter) or "").replace(".items()", "").endswith(".global_caps") for l in walk(sr.node) if isinstance(l, ast.For))
+    n = 0
+    if by_prefix:
+        for fi in repo.all_funcs:
+            if fi.parent_fn is not None:
+                continue
+            for st in stores(fi.node):
+                if not st.path.endswith(".global_caps"):
+                    continue
+                if st.kind == "setitem" and st.value is not None:
+                    n += 1
+                    ctx.ob("C16.R8", f"{fi.qual}: `{norm(st.target)}` is only set to a non-empty URL",
+                           _known_nonempty(fi, st.node, st.value), ctx.w(fi, st.node),
+                           f"`{norm(st.value)}` may be an empty string: every URL of this and later sessions then "
+                           f"resolves to this global cap")
+                elif st.kind == "mutcall" and st.method in ("update", "setdefault"):
+                    n += 1
+                    ctx.ob("C16.R8", f"{fi.qual}: `{norm(st.node)}` only stores non-empty URLs", False, ctx.w(fi, st.node),
+                           "bulk update of global caps without a per-URL emptiness check")
+        ctx.floor("C16.R8", "stores into session.global_caps", n, 1)
+    else:
+        ctx.note("C16.R8: Session.resolve_cap no longer resolves global_caps by prefix; emptiness of global cap URLs not required")
+    # region.caps: direct stores in the region class, and register_cap call sites
+    rc = repo.fn("ProxiedRegion.register_cap")
+    fl = RoleFlow(model, rc)
+    pn = model.api_param_names.get("register_cap", [])
+    proles = model.api_param_roles.get("register_cap", [])
+    url_param = next((p_ for p_, r in zip(pn, proles) if r == URL), None)
+    callee_guard = False
+    for fi, node, kind, method in caps_mutations(model):
+        q = top_fn(fi).qual
+        v = None
+        if kind == "mutcall" and method == "add" and len(node.args) == 2:
+            v = node.args[1]
+            site = node
+        elif kind == "setitem" and isinstance(node, ast.Assign):
+            v = node.value
+            site = node
+        if not (isinstance(v, ast.Tuple) and len(v.elts) == 2):
+            continue
+        url_e = v.elts[1]
+        if q == "ProxiedRegion.register_cap" and isinstance(url_e, ast.Name) and url_e.id == url_param:
+            callee_guard = _known_nonempty(fi, site, url_e)
+            continue
+        n += 1
+        ctx.ob("C16.R8", f"{q}: URL `{norm(url_e)}` stored in caps is known to be non-empty",
+               _known_nonempty(fi, site, url_e), ctx.w(fi, site),
+               "an empty cap URL is a prefix of every request URL")
+    if url_param is not None:
+        from .common import callers_of
+        for g, c in callers_of(repo, "register_cap"):
+            if not isinstance(c.func, ast.Attribute) or not model.module_aware(g.module):
+                continue
+            i = pn.index(url_param)
+            a = c.args[i] if i < len(c.args) else next((k.value for k in c.keywords if k.arg == url_param), None)
+            if a is None:
+                continue
+            n += 1
+            ok = callee_guard or _known_nonempty(g, c, a)
+            ctx.ob("C16.R8", f"{top_fn(g).qual}: URL `{norm(a)}` registered as a cap is known to be non-empty", ok, ctx.w(g, c),
+                   "neither the call site nor register_cap checks it; an empty cap URL is a prefix of every request URL, so "
+                   "unrelated requests resolve to this cap")
+    ctx.floor("C16.R8", "cap URL stores", n, 4)
+
+
 def run(ctx):
     model = Model(ctx)
     r1(ctx, model)
@@ -1338,6 +1650,8 @@ def run(ctx):
     r4(ctx, model)
     r5(ctx, model)
     r6(ctx, model)
+    r7(ctx, model)
+    r8(ctx, model)
     ctx.note("C16: resolve_cap returns the first startswith() match in index order; resolution with prefix-related "
              "URLs across caps/regions/sessions is not decided")
     ctx.assume("multidict.MultiDict: add() appends, [] / get() return the first value, popall() removes all values "
